@@ -324,7 +324,9 @@ class Miller(Vector3d):
         vector.
         """
         _, l = self.symmetrise(unique=True, return_multiplicity=True)
-        return l.reshape(self.shape)
+        # Multiplicities are in the order of the flattened vectors, see
+        # flatten()
+        return l.reshape(self.shape[::-1]).T
 
     @property
     def space(self) -> str:
